@@ -207,6 +207,7 @@ func (m *machine) callFn(g *gor, caller *frame, fn *ssa.Function, args []value, 
 	}
 	if fn.Synthetic == "package initializer" {
 		if !allowInit(fn.Pkg.Pkg.Path()) {
+			m.noteOverride("package initialiser not executed: " + fn.Pkg.Pkg.Path())
 			return nil
 		}
 		if sharedPkg(fn.Pkg) {
